@@ -41,6 +41,7 @@ func TestMain(m *testing.M) {
 			"Non-trivial = at least one splat (.splat, PLY) / at least two points, so that strides matter (SPZ); distinct by case JSON. " +
 			"Sub-checks large (100..100 000 splats through the three oracles; every case non-trivial) and concurrent-*: every concurrent-* case (2-5 bundled cases run at the same time after each passed alone) is non-trivial.",
 		Assumptions: []string{
+			"sub-check million also holds one case 'spz-sequence': six SPZ streams of 94 000..180 000 splats with 4-6 MiB of harmonics decoded one after another in one process, each judged like any stream; the spz read node is compared with spz.Read for streams up to 4096 splats",
 			"splat clouds are identity-indexed point clouds (modeling.NewPointCloud): a splat is a vertex",
 			"positions are finite doubles within the float32 range; log-scales lie in [-80,80] so that exp(scale) is a normal float32; rotation components lie in [-1,1]; FDC and opacity are any finite doubles",
 			".splat tolerances: position bit-exact float32 image; scale within 2.4e-7*max(1,|s|) (twice float32 epsilon); colour within 1/255 of the clamped display colour; opacity within 1/255 in sigmoid space; rotation within 1/128 (+1e-9 slack each)",
